@@ -317,6 +317,13 @@ class Run:
                 self.obligations += 1
                 self.broken.append(("extract", "pre_build failed: %s\n%s" % (e, traceback.format_exc()[-1500:])))
         kernels = self.mod.kernels() if hasattr(self.mod, "kernels") else []
+        # the libraries the generated files import (tie tactics, models) are build targets too: they are not always
+        # reachable from props/<ID>.vo or corr/K_<ID>.vo, and must not be left stale when a shared file changes
+        imp = sorted({os.path.join(*(lib.split(".")[1:] + [name])) + ".vo" for k in kernels for lib, name in k.imports if lib.split(".")[0] == "PW"})
+        if imp:
+            rc, out = ensure_library(imp)
+            if rc != 0:
+                self.broken.append(("library", "a library imported by the traced kernels does not build:\n" + out[-3000:]))
         jobs, infos = [], {}
         for k in kernels:
             try:
